@@ -172,11 +172,12 @@ static void exhaustive(int L) {
 }
 
 /* ---- (b) grammar-aware mutation ----------------------------------------------------------------------- */
-static unsigned char *MB; static size_t MBN, MBCAP;
+static unsigned char *MB; static size_t MBN, MBCAP; static bool MUT_SELFINC, MUT_LONG;
 static void mb_set(const void *p, size_t n) { if (n + 20000 > MBCAP) { MBCAP = n + 40000; MB = vf_xrealloc(MB, MBCAP); } memcpy(MB, p, n); MBN = n; }
 static void mb_insert(size_t at, const void *p, size_t n) { if (MBN + n + 8 > MBCAP) { MBCAP = MBN + n + 20000; MB = vf_xrealloc(MB, MBCAP); } memmove(MB + at + n, MB + at, MBN - at); memcpy(MB + at, p, n); MBN += n; }
 static const char *CUR_BN;      /* base name of the seed document being mutated: a file that exists next to the mutated copy */
 static void mutate(int fn) {
+    MUT_SELFINC = MUT_LONG = false;
     int nm = 1 + (int)rng_below(&R, 3);
     for (int m = 0; m < nm; m++) {
         size_t at = MBN ? rng_below(&R, (uint32_t)MBN + 1) : 0;
@@ -192,6 +193,10 @@ static void mutate(int fn) {
                   mb_insert(at > MBN ? MBN : at, c, strlen(c)); break; }                        /* self / mutually referential variables */
         case 8: if (MBN > 2) { size_t a = rng_below(&R, (uint32_t)MBN - 1); unsigned char t = MB[a]; MB[a] = MB[a + 1]; MB[a + 1] = t; } break;
         case 9: if (MBN) MB[rng_below(&R, (uint32_t)MBN)] = (unsigned char)rng_below(&R, 256); break;
+        case 16: if (fn != F_APACHE && !MUT_SELFINC) {   /* not combined with self-inclusion: 128 copies of a multi-megabyte line are slow, not endless */ /* a long line that references a long value: the size of the expansion is a product of lengths (2^31 and 2^32 are within reach of a few MiB) */
+                  size_t vl = (size_t[]){4096, 8192, 300}[rng_below(&R, 3)], ll = rng_chance(&R, 1, 8) ? (4u << 20) : rng_chance(&R, 1, 2) ? (1u << 20) : 70000;
+                  char *x = hm_alloc(vl + ll + 64); size_t o = 0; memcpy(x, "\n[]\nlv=", 7); o = 7;   /* back to the root section first */ memset(x + o, 'v', vl); o += vl; memcpy(x + o, "\nlw=${lv}", 9); o += 9; memset(x + o, 'y', ll - 5); o += ll - 5; x[o++] = '\n';
+                  mb_insert(MBN, x, o); hm_free(x); vf_count("long_reference_lines", 1); MUT_LONG = true; } break;
         case 10: if (MBN) MB[rng_below(&R, (uint32_t)MBN)] = 0; break;                         /* embedded NUL (file parsers) */
         case 11: { char inc[80]; snprintf(inc, sizeof inc, "\n@INCLUDE %s\n", (const char *[]){"/nonexistent/file", "", "                ", "missing.conf"}[rng_below(&R, 4)]); mb_insert(at > MBN ? MBN : at, inc, strlen(inc)); break; }
         case 12: { size_t l = 4090 + rng_below(&R, 12); char *x = hm_alloc(l + 16); memset(x, '/', l); memcpy(x, "\n@INCLUDE ", 10); x[l - 1] = '\n'; mb_insert(at > MBN ? MBN : at, x, l); hm_free(x); break; }   /* over-long include path */
@@ -202,10 +207,10 @@ static void mutate(int fn) {
                   size_t ll = strlen(nm) + 3; char *x = hm_alloc(N * ll + 1); for (size_t i = 0; i < N; i++) { x[i * ll] = '<'; memcpy(x + i * ll + 1, nm, ll - 3); x[i * ll + ll - 2] = '>'; x[i * ll + ll - 1] = '\n'; }
                   size_t where = rng_chance(&R, 1, 2) ? 0 : (at > MBN ? MBN : at); while (where > 0 && where < MBN && MB[where - 1] != '\n') where--;
                   mb_insert(where, x, N * ll); hm_free(x); vf_count("deeply_nested_section_documents", 1); } break;
-        case 15: if (CUR_BN) { /* a file that includes itself (the mutated copy is written as mut-<shard>-<pid>.conf next to the seed), directly or after some text */
+        case 15: if (CUR_BN && !MUT_LONG) { /* a file that includes itself (the mutated copy is written as mut-<shard>-<pid>.conf next to the seed), directly or after some text */
                   char inc[96]; int n = snprintf(inc, sizeof inc, "@INCLUDE mut-%d-%d.conf\n", VF.shard, (int)getpid());
                   size_t where = rng_chance(&R, 1, 2) ? 0 : (at > MBN ? MBN : at); while (where > 0 && where < MBN && MB[where - 1] != '\n') where--;
-                  mb_insert(where, inc, (size_t)n); vf_count("self_including_documents", 1); } break;
+                  mb_insert(where, inc, (size_t)n); vf_count("self_including_documents", 1); MUT_SELFINC = true; } break;
         case 13: if (CUR_BN) { /* include line naming an EXISTING file, padded with blanks to the neighbourhood of PATH_MAX (the blanks are trimmed before the file is opened) */
                   size_t L = rng_chance(&R, 3, 4) ? 4078 + rng_below(&R, 24) : 3000 + rng_below(&R, 3000), bl = strlen(CUR_BN); if (L < bl + 2) L = bl + 2;
                   size_t lead = rng_chance(&R, 1, 2) ? 0 : rng_below(&R, (uint32_t)(L - bl)); char *x = hm_alloc(L + 16); memcpy(x, "\n@INCLUDE ", 10); memset(x + 10, rng_chance(&R, 1, 4) ? '\t' : ' ', L); memcpy(x + 10 + lead, CUR_BN, bl); x[10 + L] = '\n';
